@@ -5,27 +5,36 @@
 EXTENDS ArlLayout, Json, IOUtils
 L(txt, v) == [txt |-> txt, v |-> v]
 Quick == IOEnv.PNC_SCALE = "quick"
+\* surface variables, and per level above the surface its variables: the same on
+\* every level, or different ones (a variable may appear on some levels only)
+Uniform(lay, n) == [l \in 1..n |-> lay]
+Shapes ==
+  { [sfc |-> <<"PRSS">>, levv |-> lv] : lv \in { Uniform(<<"TEMP">>, 1), Uniform(<<"TEMP", "UWND">>, 3),
+        << <<"TEMP", "UWND">>, <<"TEMP", "RELH">>, <<"TEMP">> >>,
+        << <<"HGTS", "TEMP">>, <<"HGTS", "RELH">>, <<"UWND">> >> } }
+  \cup { [sfc |-> <<"PRSS", "T02M">>, levv |-> Uniform(<<"TEMP", "UWND">>, 1)],
+          [sfc |-> <<"SHGT">>, levv |-> Uniform(<<"UWND", "VWND">>, 1)] }
+LevelsFor(n) == IF n = 1 THEN << L("1.0000", 10000), L("0.9800", 9800) >>
+                ELSE << L("0.0000", 0), L("1000.0", 10000000), L("925.00", 9250000), L("50.000", 500000) >>
 Configs ==
-  { [nx |-> g[1], ny |-> g[2], sfc |-> vs[1], lay |-> vs[2], levels |-> lv, nt |-> nt,
-     start |-> st, dth |-> dth, ff |-> 0, base |-> <<300, 1000, 20, 515>>] :
+  { [nx |-> g[1], ny |-> g[2], sfc |-> sh.sfc, levv |-> sh.levv, levels |-> LevelsFor(Len(sh.levv)), nt |-> nt,
+     start |-> st, dth |-> dth, ff |-> 0, base |-> <<300, 1000, 20, 515, 760, 130>>] :
       g \in (IF Quick THEN { <<20, 15>> } ELSE { <<20, 15>>, <<17, 19>> }),
-      vs \in { << <<"PRSS">>, <<"TEMP">> >>, << <<"PRSS", "T02M">>, <<"TEMP", "UWND">> >>, << <<"SHGT">>, <<"UWND", "VWND">> >> },
-      lv \in { << L("1.0000", 10000), L("0.9800", 9800) >>,
-               << L("0.0000", 0), L("1000.0", 10000000), L("925.00", 9250000), L("50.000", 500000) >> },
-      nt \in (IF Quick THEN {1, 3} ELSE 1..3), dth \in {3, 12},
+      sh \in Shapes, nt \in (IF Quick THEN {1, 3} ELSE 1..3), dth \in {3, 12},
       st \in (IF Quick THEN { <<11, 7, 1, 0>>, <<99, 12, 31, 18>> } ELSE { <<11, 7, 1, 0>>, <<99, 12, 31, 18>>, <<12, 2, 28, 21>> }) }
 \* c: configuration; z: its file (records) and the packing of every field, computed once
 VARIABLES c, z
+LevList(cc, name) == IF IsSfc(cc, name) THEN <<0>> ELSE LevelsOf(cc, name)
 PackAll(cc) == [s \in 1..NVars(cc) |-> [t \in 1..cc.nt |->
-                 [l \in 1..(IF s <= Len(cc.sfc) THEN 1 ELSE Len(cc.levels) - 1) |->
-                    Packed(cc, s, t, IF s <= Len(cc.sfc) THEN 0 ELSE l)]]]
+                 LET name == AllNames(cc)[s] IN
+                 [q \in 1..Len(LevList(cc, name)) |-> Packed(cc, name, t, LevList(cc, name)[q])]]]
 Init == c \in {x \in Configs : ReaderWindowFits(x)} /\ z = [file |-> ArlFile(c), packs |-> PackAll(c)]
 Next == UNCHANGED <<c, z>>
 Spec == Init /\ [][Next]_<<c, z>>
 InvSized == \A r \in 1..Len(z.file) : RecBytesA(z.file[r]) = RecLen(c)
 InvCount == Len(z.file) = c.nt * RecordsPerTime(c)
 InvPacking == \A s \in 1..NVars(c) : \A t \in 1..c.nt : \A l \in 1..Len(z.packs[s][t]) :
-                  LET f == Field(c, s, t, IF s <= Len(c.sfc) THEN 0 ELSE l) p == z.packs[s][t][l] IN
+                  LET name == AllNames(c)[s] f == Field(c, name, t, LevList(c, name)[l]) p == z.packs[s][t][l] IN
                   NoWrap(p) /\ FirstExact(f, p) /\ WithinOneStep(f, p) /\ p.nexp >= 7
 EmitConstraint == IF IOEnv.PNC_EMIT = "1"
   THEN PrintT(ToJson([cfg |-> c, recs |-> z.file, reclen |-> RecLen(c),
